@@ -72,7 +72,14 @@ def git(cwd, *args, binary=False, check=True):
     return p.stdout if binary else p.stdout.decode("utf-8", errors="replace")
 
 
-INITIAL_FILES = {"a.txt": b"a0", "b.txt": b"b0", "sub/c.txt": b"c0", "sub/deep/d.txt": b"d0"}
+INITIAL_FILES = {"a.txt": b"a0", "b.txt": b"b0", "sub/c.txt": b"c0", "sub/deep/d.txt": b"d0",
+                 ".gitignore": b"*.tmp\nbuild/\n"}
+
+
+def is_ignored(path: str) -> bool:
+    """does the generated repositories' .gitignore match this (new) path?"""
+    parts = pathlib.PurePosixPath(os.path.normpath(path)).parts
+    return parts[-1].endswith(".tmp") or "build" in parts[:-1]
 
 
 def make_repo(root: pathlib.Path) -> pathlib.Path:
@@ -175,7 +182,7 @@ def worktree_files(wt: pathlib.Path) -> dict[str, bytes]:
 
 def observe(repo, wt) -> dict:
     return dict(refs=refs_of(repo), all=all_commits(repo), head=git(wt, "rev-parse", "HEAD").strip(),
-                status=git(wt, "status", "--porcelain", "--untracked-files=all"),
+                status=git(wt, "status", "--porcelain", "--untracked-files=all", "--ignored"),
                 main_head=git(repo, "symbolic-ref", "HEAD").strip())
 
 
@@ -313,7 +320,7 @@ def monitor_txn(out: Outcome, hdesc: dict, seq_so_far: list, txn: dict, res: dic
         target = "refs/heads/" + target
     written = {}
     for op in txn["body"]:
-        if op[0] == "w":
+        if op[0] == "w" and not is_ignored(full(op[1])):
             written[full(os.path.normpath(op[1]))] = op[2]
     committed_expected = seen is None and not txn.get("dry_run")
     ref_moved = post["refs"] != pre["refs"]
@@ -386,7 +393,7 @@ def describe(txn: dict) -> str:
 # ------------------------------------------------------------------ generators
 
 PATHS_OLD = ["a.txt", "b.txt", "sub/c.txt", "sub/deep/d.txt"]
-PATHS_NEW = ["new.txt", "sub/new2.txt", "sub/deep/./n3.txt"]
+PATHS_NEW = ["new.txt", "sub/new2.txt", "sub/deep/./n3.txt", "junk.tmp", "sub/cache.tmp"]
 PATH_NODIR = "nodir/x.txt"
 HANDLERS = [
     dict(revision="master", subdir="/"),
@@ -401,7 +408,7 @@ OBJECTLIKE = ["deadbeef", "ORIG_HEAD", "x/HEAD", "feature/abcd", "HEAD"]
 
 def rel_paths(hdesc):
     if hdesc["subdir"] == "sub":
-        return ["c.txt", "deep/d.txt"], ["new2.txt", "deep/./n3.txt"], PATH_NODIR
+        return ["c.txt", "deep/d.txt"], ["new2.txt", "deep/./n3.txt", "cache.tmp"], PATH_NODIR
     return PATHS_OLD, PATHS_NEW, PATH_NODIR
 
 
@@ -457,6 +464,10 @@ def systematic(ctx: Ctx, hdesc) -> list[list[dict]]:
         seqs.append([dict(o, body=[base_body[0], ("open", new[0], b"left open"), ("raise",)], git_fault=None), follow])
         seqs.append([dict(o, body=[base_body[0], ("nested",), base_body[1]], git_fault=None), follow])
         seqs.append([dict(o, body=[base_body[0], ("w", nodir, b"x")], git_fault=None), follow])
+        ign = [p for p in new if is_ignored(p)][0]
+        seqs.append([dict(o, body=[base_body[0], ("w", ign, b"ignored by .gitignore")], git_fault=None), follow])
+        seqs.append([dict(o, body=[("open", ign, b"ignored, left open"), base_body[0], ("raise",)], git_fault=None), follow])
+        seqs.append([dict(o, body=[("wp", ign, b"ign")], git_fault=None), follow])
         # every git command
         for j in range(0, 12):
             seqs.append([dict(o, body=list(base_body), git_fault=j), follow])
@@ -484,6 +495,8 @@ def to_model_txn(txn: dict, hdesc) -> dict:
             body.append([o[0]])
         elif o[1].startswith("nodir/"):
             body.append(["wnodir", full(o[1]), []])
+        elif o[0] in ("w", "wp") and is_ignored(full(o[1])):
+            body.append(["wign", full(o[1]), list(o[2])])
         else:
             body.append([o[0], full(o[1]), list(o[2])])
     return {"dry": bool(txn.get("dry_run")), "ignore_empty": txn.get("ignore_empty", True) is not False,
@@ -608,6 +621,11 @@ def setup_env(ctx: Ctx):
         os.environ[k] = v
     sys.path.insert(0, str(common.REPO))
     from capellambse.filehandler import git as fg
+    import logging
+
+    lg = logging.getLogger("capellambse.filehandler.git")  # git's stderr for refused commands is expected noise here
+    lg.addHandler(logging.NullHandler())
+    lg.propagate = False
 
     # the module computed its cache location at import time; make sure it is under scratch
     if not str(fg.WTBASE).startswith(str(ctx.scratch)):
